@@ -270,7 +270,7 @@ def run_check(prop: Prop, tier: str, seed: int, replay: str | None = None) -> in
             diff = prop.compare(case, obs, mobs)
             if diff and not (why and match_known(prop.id, prop.signature(case, obs, why))):
                 rep.disagreements += 1
-                found = search_failing_input(prop, case, rng, prop.budgets[tier] * 10 if tier == "quick" else prop.budgets[tier])
+                found = search_failing_input(prop, case, rng, 300 if tier == "quick" else 2000)
                 payload = {"property": prop.id, "broken": f"corr:{prop.id}", "origin": origin, "first_differing_case": case, "difference": diff, "impl": obs, "model": mobs}
                 if found:
                     payload.update({"case": found[0], "observed": found[1], "why": found[2]})
